@@ -564,7 +564,7 @@ func (c *Ctx) reachableFromLimited(root *ssa.Function, d int) (map[*ssa.Function
 
 func ruleC07(c *Ctx, r *Report) {
 	const rule = "SW1"
-	r.floor(rule, 15)
+	r.floor(rule, 12)
 	routerPkg := c.Pkg("proxy/router")
 	seqMgr := c.NamedType("proxy/sequence", "SequenceManager")
 	if routerPkg == nil {
